@@ -290,6 +290,7 @@ pub fn report_hook(_url: &str, req: CreatePatchEventRequest) -> anyhow::Result<(
     let v = serde_json::to_value(&req).unwrap();
     let ev = v.get("event").cloned().unwrap_or(serde_json::Value::Null);
     LOG.lock().unwrap().push(format!("E:{}", event_string(&ev)));
+    crate::sched::stall_ev();
     if REPORT_FAILS.load(std::sync::atomic::Ordering::SeqCst) {
         anyhow::bail!("injected report failure");
     }
@@ -1135,6 +1136,7 @@ pub fn main(args: &[String]) -> i32 {
             "stall" => {
                 crate::sched::STALL.store(toks[1] == "on", std::sync::atomic::Ordering::SeqCst);
                 crate::sched::STALL_BG.store(toks[1] == "bg", std::sync::atomic::Ordering::SeqCst);
+                crate::sched::STALL_EV.store(toks[1] == "ev", std::sync::atomic::Ordering::SeqCst);
                 crate::sched::BG_IN_NET.store(false, std::sync::atomic::Ordering::SeqCst);
             }
             "faultspec" => {}
